@@ -363,6 +363,10 @@ def replay(path):
             for r in bad:
                 print('FAILS AGAIN:', r['name'],
                       (r.get('replay') or {}).get('outcome'))
+            for fl in (res.get('bounded') or {}).get('failures', []):
+                bad.append(fl)
+                print('FAILS AGAIN (bounded check on the real code):', fl.get('name'),
+                      json.dumps({k: v for k, v in fl.items() if k != 'name'}, default=str)[:400])
             if not bad:
                 print('no obligation of this family fails on the current tree')
             return 1 if bad else 0
